@@ -1139,6 +1139,13 @@ func (*Context).evaluate
   ghost at loop 3 end: if code.T == typeBlockPop && ctx.Error == nil { ghostAssert(fstrBlockIndex > 0 ==> stack[e.top-1].TypeId == VMTypeString && stack[e.top-1].Value.(string) == ""); ghostAssert(fstrBlockIndex == 0 ==> stack[e.top-1].TypeId == VMTypeNull) }
   ghost at loop 3 end: if code.T == typeStSetName || code.T == typeStModify || code.T == typeStX0 || code.T == typeStX1 { ghostAssert(gcb ==> stCalls == 1); ghostAssert(!gcb ==> stCalls == 0) } else { ghostAssert(stCalls == 0) }
   ghost at loop 3 end: if code.T == typeCustomDice { ghostAssert(cdCalls == 1) } else { ghostAssert(cdCalls == 0) }
+  // the mode handed to every roll function is the context's CURRENT configuration (min mode wins over max mode): a VM that
+  // is entered through evaluate directly — the sub-VM of a cached function or computed body — rolls under the mode it
+  // inherited (C15)
+  closure getRollMode
+    ensures [C15] ctx.Config.DiceMinMode ==> result == -1
+    ensures [C15] !ctx.Config.DiceMinMode && ctx.Config.DiceMaxMode ==> result == 1
+    ensures [C15] !ctx.Config.DiceMinMode && !ctx.Config.DiceMaxMode ==> result == 0
   closure numOpCountAdd
     requires [C07] count >= 0
     ensures [C07] old(e.NumOpCount) + count <= math.MaxInt64 ==> e.NumOpCount == old(e.NumOpCount) + count
